@@ -36,7 +36,9 @@ class Raise(Exception):
     """A Python exception raised in the program under verification."""
 
     def __init__(self, exc: VExc, site=""):
-        self.exc, self.site = exc, site
+        if getattr(exc, "site", None) is None:
+            exc.site = site  # where it was first raised (a bare `raise` keeps it)
+        self.exc, self.site = exc, (exc.site if site == "re-raise" else site)
 
 
 class Scope:
